@@ -196,6 +196,7 @@ func (p *queueProcessor) drainQueue() {
 func (p *queueProcessor) tryProcessQueueItems() {
 	for p.queue.Size() > 0 {
 		reqID := p.queue.DequeueIfValueRelevant()
+		verifhook.Event("queue.dequeued", reqID)
 		if reqID == "" {
 			p.logger.Trace().Msg("The next request to be processed does not belong to this Gateway instance")
 			continue
@@ -203,6 +204,7 @@ func (p *queueProcessor) tryProcessQueueItems() {
 		req, found := p.requestsWatcher.GetRequest(reqID)
 
 		if !found || !req.StartProcessing() {
+			verifhook.Event("queue.skipped", reqID)
 			p.logger.Trace().Str("requestID", reqID).
 				Msg("Request not found in request map, probably already terminated")
 			continue
